@@ -2,6 +2,8 @@ package bigbuff
 
 import (
 	"context"
+	"regexp"
+	"strings"
 	"sync"
 	"time"
 
@@ -11,11 +13,14 @@ import (
 // Buffer drivers (DESIGN Appendix E). Every public call is logged as c:<op> / r:<op> events
 // carrying an operation id (a fresh stamp), the handle id and arguments / results.
 
+var ptrRe = regexp.MustCompile(`0x[0-9a-f]+`)
+
+// errStr renders an error for the log with pointer values masked (they differ between runs).
 func errStr(err error) string {
 	if err == nil {
 		return ""
 	}
-	return err.Error()
+	return ptrRe.ReplaceAllString(err.Error(), "0xPTR")
 }
 
 func tok(v interface{}) int {
@@ -510,15 +515,23 @@ func bReclaim(nCons int, cooldown time.Duration, lastCloses bool, fixed bool) fu
 
 func init() {
 	reg := func(name, prop string, q, t int, desc string, run func(), policy func(int, []int) int) {
-		vrt.Register(&vrt.Scenario{Name: name, Props: []string{prop, "C11:race", "C12:goroutine-leak,close-"}, Quick: q, Thorough: t,
-			Desc: desc, Opts: vrt.Options{Delay: true}, Run: run, Check: bufferCheck(policy)})
+		props := []string{"C11:race", "C12:goroutine-leak,close-"}
+		for _, p := range strings.Split(prop, ",") {
+			props = append(props, p)
+		}
+		check := bufferCheck(policy)
+		if prop == "C05" {
+			check = bufferCheckSig(policy, "lost-wakeup")
+		}
+		vrt.Register(&vrt.Scenario{Name: name, Props: props, Quick: q, Thorough: t,
+			Desc: desc, Opts: vrt.Options{Delay: true}, Run: run, Check: check})
 	}
 	ms := time.Millisecond
 	reg("B-fifo-2p1c", "C01", 2, 3, "two producers (a batch of 2; two single Puts) vs one consumer reading and committing 4 values; cleaner running, cooldown 0", bFifo2p1c(0), defaultPolicy)
 	reg("B-fifo-2p1c-cd", "C01", 1, 2, "same with a 10ms cleaner cooldown (timer events)", bFifo2p1c(10*ms), defaultPolicy)
 	reg("B-fifo-late", "C01", 2, 3, "a consumer created while another consumer's commits let the cleaner shift the buffer", bFifoLate(0), defaultPolicy)
 	reg("B-shared", "C02", 2, 3, "two goroutines sharing one consumer: Get Commit vs Get Rollback Get", bShared, defaultPolicy)
-	reg("B-txn", "C02", 2, 3, "C1: G G R G C G R while C2 commits far ahead and the cleaner shifts underneath", bTxn, defaultPolicy)
+	reg("B-txn", "C02,C03", 2, 3, "C1: G G R G C G R while C2 commits far ahead and the cleaner shifts underneath", bTxn, defaultPolicy)
 	reg("B-evict", "C03", 2, 3, "FixedBufferCleaner(2,1): lagging consumer with uncommitted reads vs fast consumer vs producer past max", bEvict, fixedPolicy(2, 1))
 	reg("B-wake-put", "C05", 2, 3, "Get blocked on an empty buffer vs Put", bWake(true, false, false), defaultPolicy)
 	reg("B-wake-cancel", "C05", 2, 3, "Get blocked on an empty buffer vs cancellation of its context; the next Get returns the first value", bWake(false, true, false), defaultPolicy)
